@@ -1,7 +1,7 @@
 """C17 driver: feeds strings to every decoder and records the outcome class (the judge is spec/Trace_Fuzz.tla)."""
 import sys
 
-ALPHABET = ["0", "1", "5", "f", "g", "z", "-", "+", ".", "/", "٣"]
+ALPHABET = ["0", "1", "5", "f", "g", "z", "-", "+", ".", "/", "٣", "A"]     # "A": an upper-case hex digit
 
 
 def text_of(sym):
@@ -182,4 +182,12 @@ def job(args):
         r = run_comb(name, texts, h, w, extra)
     else:
         r = run_compass(texts, h, w)
-    return {"kind": kind, "decoder": name, "h": h, "w": w, "n": len(texts), "n_none": r[0], "n_valueerror": r[1], "outs": r[2]}
+    outs, raised = [], 0
+    for o in r[2]:          # every crash is a violation: a bounded sample per batch is judged (all of them are counted)
+        if o["outcome"] == "raised":
+            raised += 1
+            if raised > 25:
+                continue
+        outs.append(o)
+    return {"kind": kind, "decoder": name, "h": h, "w": w, "n": len(texts), "n_none": r[0], "n_valueerror": r[1],
+            "n_raised": raised, "outs": outs}
